@@ -12,6 +12,12 @@ INT_MODE = {0: 'zero', 1: 'symmetric', 2: 'periodization', 3: 'constant', 4: 're
 MODE_INT = {v: k for k, v in INT_MODE.items()}
 
 
+def LM(m, ps, ts):
+    """mode spelling handed to the library for this case (see gen.lib_mode)"""
+    from . import gen
+    return gen.lib_mode(m, tuple(ps), tuple(None if t is None else tuple(np.shape(t)) for t in ts))
+
+
 import hashlib as _hashlib
 
 
@@ -57,19 +63,19 @@ def ll():
 def afb1d(ps, ts):
     ax, m = ps
     w0, w1, x = ts
-    return [N(ll().afb1d(T(x), T(w0), T(w1), mode=INT_MODE[m], dim=ax))]
+    return [N(ll().afb1d(T(x), T(w0), T(w1), mode=LM(m, ps, ts), dim=ax))]
 
 
 def afb1d_atrous(ps, ts):
     ax, m, d = ps
     w0, w1, x = ts
-    return [N(ll().afb1d_atrous(T(x), T(w0), T(w1), mode=INT_MODE[m], dim=ax, dilation=d))]
+    return [N(ll().afb1d_atrous(T(x), T(w0), T(w1), mode=LM(m, ps, ts), dim=ax, dilation=d))]
 
 
 def sfb1d(ps, ts):
     ax, m = ps
     g0, g1, lo, hi = ts
-    return [N(ll().sfb1d(T(lo), T(hi), T(g0), T(g1), mode=INT_MODE[m], dim=ax))]
+    return [N(ll().sfb1d(T(lo), T(hi), T(g0), T(g1), mode=LM(m, ps, ts), dim=ax))]
 
 
 def AFB1D_fwd(ps, ts):
@@ -221,7 +227,7 @@ def DWT1DForward(ps, ts):
     m, J = ps
     h0, h1, x = ts
     from pytorch_wavelets.dwt.transform1d import DWT1DForward as M
-    mod = M(J=J, wave=_wave(ts, 2), mode=INT_MODE[m])
+    mod = M(J=J, wave=_wave(ts, 2), mode=LM(m, ps, ts))
     yl, yh = mod(T(x))
     return [N(yl)] + [N(h) for h in yh]
 
@@ -231,7 +237,7 @@ def DWT1DInverse(ps, ts):
     g0, g1, yl = ts[:3]
     yh = ts[3:]
     from pytorch_wavelets.dwt.transform1d import DWT1DInverse as M
-    mod = M(wave=_wave(ts, 2), mode=INT_MODE[m])
+    mod = M(wave=_wave(ts, 2), mode=LM(m, ps, ts))
     y = _inverse_with_list_history(mod, T(yl), [None if h is None else T(h) for h in yh])
     return [N(y)]
 
@@ -239,7 +245,7 @@ def DWT1DInverse(ps, ts):
 def DWTForward(ps, ts):
     m, J, nw = ps
     from pytorch_wavelets.dwt.transform2d import DWTForward as M
-    mod = M(J=J, wave=_wave(ts, nw), mode=INT_MODE[m])
+    mod = M(J=J, wave=_wave(ts, nw), mode=LM(m, ps, ts))
     yl, yh = mod(T(ts[nw]))
     return [N(yl)] + [N(h) for h in yh]
 
@@ -247,7 +253,7 @@ def DWTForward(ps, ts):
 def DWTInverse(ps, ts):
     m, nw = ps
     from pytorch_wavelets.dwt.transform2d import DWTInverse as M
-    mod = M(wave=_wave(ts, nw), mode=INT_MODE[m])
+    mod = M(wave=_wave(ts, nw), mode=LM(m, ps, ts))
     yl = ts[nw]
     yh = ts[nw + 1:]
     y = _inverse_with_list_history(mod, T(yl), [None if h is None else T(h) for h in yh])
@@ -257,7 +263,7 @@ def DWTInverse(ps, ts):
 def SWTForward(ps, ts):
     m, J, nw = ps
     from pytorch_wavelets.dwt.transform2d import SWTForward as M
-    mod = M(J=J, wave=_wave(ts, nw), mode=INT_MODE[m])
+    mod = M(J=J, wave=_wave(ts, nw), mode=LM(m, ps, ts))
     return [N(c) for c in mod(T(ts[nw]))]
 
 
@@ -268,19 +274,19 @@ def _prep_afb(ts):
 
 def afb2d(ps, ts):
     (m,) = ps
-    return [N(ll().afb2d(T(ts[4]), _prep_afb(ts), mode=INT_MODE[m]))]
+    return [N(ll().afb2d(T(ts[4]), _prep_afb(ts), mode=LM(m, ps, ts)))]
 
 
 def afb2d_atrous(ps, ts):
     m, d = ps
-    return [N(ll().afb2d_atrous(T(ts[4]), _prep_afb(ts), mode=INT_MODE[m], dilation=d))]
+    return [N(ll().afb2d_atrous(T(ts[4]), _prep_afb(ts), mode=LM(m, ps, ts), dilation=d))]
 
 
 def sfb2d(ps, ts):
     (m,) = ps
     filts = _prep_afb(ts)
     l_, lh, hl, hh = ts[4:8]
-    return [N(ll().sfb2d(T(l_), T(lh), T(hl), T(hh), filts, mode=INT_MODE[m]))]
+    return [N(ll().sfb2d(T(l_), T(lh), T(hl), T(hh), filts, mode=LM(m, ps, ts)))]
 
 
 def afb2d_nonsep(ps, ts):
@@ -288,22 +294,22 @@ def afb2d_nonsep(ps, ts):
     m, form = ps
     hc0, hc1, hr0, hr1, x = ts
     if form == 1:
-        return [N(ll().afb2d_nonsep(T(x), [hc0, hc1, hr0, hr1], mode=INT_MODE[m]))]
+        return [N(ll().afb2d_nonsep(T(x), [hc0, hc1, hr0, hr1], mode=LM(m, ps, ts)))]
     if form == 2 and np.array_equal(hc0, hr0) and np.array_equal(hc1, hr1):
-        return [N(ll().afb2d_nonsep(T(x), (hc0, hc1), mode=INT_MODE[m]))]
+        return [N(ll().afb2d_nonsep(T(x), (hc0, hc1), mode=LM(m, ps, ts)))]
     f = ll().prep_filt_afb2d_nonsep(hc0, hc1, hr0, hr1)
-    return [N(ll().afb2d_nonsep(T(x), f.to(torch.float64), mode=INT_MODE[m]))]
+    return [N(ll().afb2d_nonsep(T(x), f.to(torch.float64), mode=LM(m, ps, ts)))]
 
 
 def sfb2d_nonsep(ps, ts):
     m, form = ps
     gc0, gc1, gr0, gr1, co = ts
     if form == 1:
-        return [N(ll().sfb2d_nonsep(T(co), [gc0, gc1, gr0, gr1], mode=INT_MODE[m]))]
+        return [N(ll().sfb2d_nonsep(T(co), [gc0, gc1, gr0, gr1], mode=LM(m, ps, ts)))]
     if form == 2 and np.array_equal(gc0, gr0) and np.array_equal(gc1, gr1):
-        return [N(ll().sfb2d_nonsep(T(co), (gc0, gc1), mode=INT_MODE[m]))]
+        return [N(ll().sfb2d_nonsep(T(co), (gc0, gc1), mode=LM(m, ps, ts)))]
     f = ll().prep_filt_sfb2d_nonsep(gc0, gc1, gr0, gr1)
-    return [N(ll().sfb2d_nonsep(T(co), f.to(torch.float64), mode=INT_MODE[m]))]
+    return [N(ll().sfb2d_nonsep(T(co), f.to(torch.float64), mode=LM(m, ps, ts)))]
 
 
 IMPL = {k: v for k, v in list(globals().items()) if callable(v) and k[0] != '_' and k not in ('T', 'N', 'll', 'named', 'Mutated')}
